@@ -95,7 +95,7 @@ func c01Cells(path string, content []byte, other []byte) []c01Cell {
 			}
 		}
 		return cells
-	case "ac_file", "ac_stdout", "ac_stderr":
+	case "ac_file", "ac_file_second", "ac_stdout", "ac_stderr":
 		cells = append(cells, mk("none", content, h, int64(n), "accept"))
 		od := mk("none-omit-digest", content, h, int64(n), "accept")
 		od.req.omitDigest = true
